@@ -35,6 +35,36 @@ def sanitised(e, helpers):
     return False, "the value is placed between quotes without escaping: a double quote ends the literal early and a backslash is read as an escape"
 
 
+def escape_chain(e, funcs, depth=0):
+    """the (char, replacement) pairs of the `.replace(a, b)` chain an expression applies, following one-return helpers"""
+    chain = []
+    cur = e
+    while isinstance(cur, ast.Call) and isinstance(cur.func, ast.Attribute) and cur.func.attr == "replace" and len(cur.args) == 2 and all(isinstance(a, ast.Constant) for a in cur.args):
+        chain.append((cur.args[0].value, cur.args[1].value))
+        cur = cur.func.value
+    chain.reverse()
+    if chain:
+        return chain
+    if isinstance(e, ast.Call) and depth < 3:
+        nm = e.func.id if isinstance(e.func, ast.Name) else e.func.attr if isinstance(e.func, ast.Attribute) else None
+        for f in funcs:
+            if f.name == nm:
+                rets = [n for n in own_nodes(f.node) if isinstance(n, ast.Return) and n.value is not None]
+                if len(rets) == 1:
+                    return escape_chain(rets[0].value, funcs, depth + 1)
+    return None
+
+
+def written_string_language(chain):
+    """regular expression of everything the writer can put between double quotes for a str value"""
+    import re
+
+    singles = [a for a, _ in chain if isinstance(a, str) and len(a) == 1]
+    cls = "[^" + "".join("\\" + c if c in "\\]^-" else c for c in singles) + "]"
+    alts = [cls] + [re.escape(b) for _, b in chain]
+    return '"(' + "|".join(alts) + ')*"'
+
+
 def quoted_slots(fmt):
     """indices of `{}` placeholders that sit between double quotes in a format string"""
     out = []
@@ -128,6 +158,7 @@ def run(ctx, idx):
                 else:
                     quoting[f.name] = (False, "json.dumps escapes non-ASCII text as \\uXXXX and characters outside the BMP as UTF-16 surrogate pairs, which the reader's unicode_escape decoding does not recombine: such strings do not read back")
     n_q = 0
+    all_funcs = list(funcs) + [g for m in idx.modules.values() for g in m.funcs.values()]
     for f in funcs:
         for n in own_nodes(f.node):
             if isinstance(n, ast.Call) and isinstance(n.func, ast.Attribute) and n.func.attr == "dumps" and isinstance(n.func.value, ast.Name) and n.func.value.id == "json" and f.name not in quoting:
@@ -158,6 +189,19 @@ def run(ctx, idx):
                     if ok is None:
                         raise AnalysisError("C15.b: %s" % why)
                     ctx.ob("C15.b", con, K.rel(f), n.lineno, ok, "escaped: backslash, then quote" if ok else why)
+                    if ok:
+                        # agreement with the reader: every text the writer can put between the quotes is one STRING token
+                        a2 = arg
+                        if isinstance(a2, ast.Name):
+                            defs = [x.value for x in own_nodes(f.node) if isinstance(x, ast.Assign) and any(isinstance(t, ast.Name) and t.id == a2.id for t in x.targets)]
+                            a2 = defs[0] if len(defs) == 1 else a2
+                        ch = escape_chain(a2, all_funcs)
+                        if ch:
+                            W = written_string_language(ch)
+                            wit = RL.not_included(RL.dfa(W), dfas["STRING"])
+                            ctx.ob("C15.b", con + "::read-back", K.rel(f), n.lineno, wit is None,
+                                   "every written quoted string is a single STRING token" if wit is None else
+                                   "the writer can emit %r between quotes (only %s are escaped), which the reader's STRING rule does not accept: such a value serialises to text that no longer loads" % (wit, ", ".join(repr(a) for a, _ in ch)))
             if isinstance(n, ast.BinOp) and isinstance(n.op, ast.Add) and isinstance(n.left, ast.Constant) and n.left.value == '"':
                 n_q += 1
                 ctx.violate("C15.b", "%s::quoted-concat" % f.key, K.rel(f), n.lineno, "a value is wrapped in quotes by concatenation without escaping: %s" % K.src(n))
